@@ -93,6 +93,21 @@ func (o *rateLimitOptions) validate() (err error) {
 	)
 }
 
+// validateSubnetKeyLen returns an error if the subnet-key length of o does not
+// fit into an address of maxLen bits.  A nil o is reported by validate.
+func (o *rateLimitOptions) validateSubnetKeyLen(maxLen int) (err error) {
+	if o == nil || o.SubnetKeyLen <= maxLen {
+		return nil
+	}
+
+	return fmt.Errorf(
+		"subnet_key_len: %w: must be less than or equal to %d, got %d",
+		errors.ErrOutOfRange,
+		maxLen,
+		o.SubnetKeyLen,
+	)
+}
+
 // toInternal converts c to the rate limiting configuration for the DNS server.
 // c must be valid.
 func (c *rateLimitConfig) toInternal(al ratelimit.Allowlist) (conf *ratelimit.BackoffConfig) {
@@ -125,7 +140,13 @@ func (c *rateLimitConfig) validate() (err error) {
 		validateProp("allowlist", c.Allowlist.validate),
 		validateProp("connection_limit", c.ConnectionLimit.validate),
 		validateProp("ipv4", c.IPv4.validate),
+		validateProp("ipv4", func() (err error) {
+			return c.IPv4.validateSubnetKeyLen(netutil.IPv4BitLen)
+		}),
 		validateProp("ipv6", c.IPv6.validate),
+		validateProp("ipv6", func() (err error) {
+			return c.IPv6.validateSubnetKeyLen(netutil.IPv6BitLen)
+		}),
 		validateProp("quic", c.QUIC.validate),
 		validateProp("tcp", c.TCP.validate),
 		validatePositive("backoff_count", c.BackoffCount),
